@@ -1,10 +1,12 @@
 // concrun is the harness of the concurrency engine. It is copied into the instrumented scratch copy
-// (zz_sim/concrun) and drives three workload kinds under the deterministic scheduler:
+// (zz_sim/concrun) and drives four workload kinds under the deterministic scheduler:
 //   map    - container.MutexMap / functionContainer operations, checked for linearizability (porcupine)
 //   atomic - atomic.Flag/Counter/Int64/Uint32/Uint64/String operations, checked for linearizability
 //   exec   - ProcessBuiltinFunction of priced functions on task-private accounts through one shared
 //            container, concurrently with GasScheduleChange and EpochConfirmed: every execution must be
 //            charged wholly by one schedule in force between its invoke and its return
+//   parse  - (mode parse only, used by the check of C10) the transaction-data parsers shared by several tasks:
+//            every report equals the report of a fresh parser when nothing else runs
 // Built with -race the same seeds give the same schedules and the race detector reports unordered accesses.
 package main
 
@@ -77,7 +79,7 @@ func main() {
 	from := flag.Int64("from", 0, "first seed")
 	to := flag.Int64("to", 0, "one past the last seed")
 	out := flag.String("out", "", "result file")
-	mode := flag.String("mode", "all", "all|map|atomic|exec")
+	mode := flag.String("mode", "all", "all|map|atomic|exec|parse")
 	replay := flag.String("replay", "", "replay file")
 	hashes := flag.Bool("hashes", false, "record per-seed schedule hashes")
 	flag.Parse()
@@ -179,7 +181,7 @@ func doReplay(path string) int {
 	for _, v := range rr.viol {
 		fmt.Printf("violation: %s: %s\n", v.Kind, v.Detail)
 		if v.Kind == rf.Violation.Kind {
-			fmt.Printf("VIOLATION property=C19 replay=%s\n", path)
+			fmt.Printf("VIOLATION property=%s replay=%s\n", rf.Property, path)
 			return 1
 		}
 	}
@@ -244,6 +246,8 @@ func runSeed(seed int64, mode string, replay []uint8) runResult {
 		kind = "atomic"
 	case "exec":
 		kind = "exec"
+	case "parse":
+		kind = "parse"
 	}
 	curKind = kind
 	stay := []int{0, 30, 60, 85, 95}[r.Intn(5)]
@@ -254,6 +258,8 @@ func runSeed(seed int64, mode string, replay []uint8) runResult {
 		return runMap(seed, r, stay, replay, true)
 	case "atomic":
 		return runAtomic(seed, r, stay, replay)
+	case "parse":
+		return runParse(seed, r, stay, replay)
 	}
 	return runExec(seed, r, stay, replay)
 }
